@@ -1108,6 +1108,28 @@ def _subst_placeholders(text, lets, fname):
         return ls[i]
     text = re.sub(r'\$looplit<(\d+)>#(\d+)', replit, text)
 
+    def reparg(m):
+        # $arg<NAME>#k : the argument text of the k-th call `NAME(..)` of the body (e.g. what is wrapped by the final `Ok(..)`)
+        nm, k = m.group(1).strip(), int(m.group(2))
+        bt = lets.bodytexts
+        hits = [i for i in range(len(bt) - 1) if bt[i] == nm and bt[i + 1] == '(' and (i == 0 or bt[i - 1] not in ('.', '::'))]
+        if k >= len(hits):
+            raise Unsupported('%s: placeholder %s: only %d such calls' % (fname, m.group(0), len(hits)))
+        i, d, out = hits[k] + 2, 1, []
+        while i < len(bt):
+            if bt[i] in ('(', '[', '{'):
+                d += 1
+            elif bt[i] in (')', ']', '}'):
+                d -= 1
+                if d == 0:
+                    break
+            out.append(bt[i])
+            i += 1
+        if not out or not all(re.fullmatch(r'[A-Za-z_][A-Za-z0-9_]*|\.|::', x) for x in out):
+            raise Unsupported('%s: placeholder %s: the argument is not a plain path' % (fname, m.group(0)))
+        return ''.join(out)
+    text = re.sub(r'\$arg<([A-Za-z_][A-Za-z0-9_]*)>#(\d+)', reparg, text)
+
     def repfe(m):
         # $feach<K> : the collection `X.iter().for_each(..)` statement K iterates over (T12's temporary, or the path X)
         k = int(m.group(1))
@@ -1257,7 +1279,7 @@ def _resolve_spec(spec, body, fname):
     if spec is None:
         return None
     alltext = ''.join(spec.sections.values()) + ''.join(a[1] + a[2] for a in spec.anchors)
-    if '$let' not in alltext and '$for<' not in alltext and '$recv<' not in alltext and '$strlit<' not in alltext and '$strlitnot<' not in alltext and '$looplit<' not in alltext and '$feach<' not in alltext:
+    if '$let' not in alltext and '$for<' not in alltext and '$recv<' not in alltext and '$strlit<' not in alltext and '$strlitnot<' not in alltext and '$looplit<' not in alltext and '$feach<' not in alltext and '$arg<' not in alltext:
         return spec
     lets = LetList(_collect_lets(body))
     lets.forpats = _collect_for_patterns(body)
